@@ -54,6 +54,7 @@ func TestC20(t *testing.T) {
 		t.Errorf("BROKEN-CHECK property=C20: child %s died: %s", o.Name, res.Output)
 	})
 	r.Require("draws.recorded", 100)
+	r.Require("shape-grid.circuits", 50)
 	r.Require("zero-stream.deterministic", 6)
 	r.Require("blinded-element-differs-from-unblinded", 50)
 	r.Require("per-draw.replays", 30)
@@ -141,6 +142,7 @@ func TestC20Child(t *testing.T) {
 			}
 		}
 	}
+	shapeGrid(r, ops, rng)
 	r.ExportPartial()
 }
 
